@@ -2,7 +2,7 @@
 """Collects mutlane results (target/lane-*.log) into seeded/RESULTS.md and per-mutant meta 'detected' fields."""
 import re, glob, json, os
 rows = {}
-for f in sorted(glob.glob('/verif/target/lane-*.log')):
+for f in sorted(glob.glob('/verif/target/lane-*.log'), key=os.path.getmtime):
     txt = open(f, errors='replace').read()
     # split per mutlane summary line, remember preceding lines
     chunks = re.split(r'(mutlane: patch=\S+ check=\S+ tier=\S+ exit=\d+)', txt)
@@ -11,10 +11,11 @@ for f in sorted(glob.glob('/verif/target/lane-*.log')):
         patch, check, tier, rc = m.groups()
         body = chunks[i-1]
         sigs = sorted(set(re.findall(r'violation (\S+?):? ', body)))
-        rows[(patch, check)] = (tier, int(rc), sigs)
-out = ["| change | check | tier | exit | violation signatures |", "|---|---|---|---|---|"]
-for (patch, check), (tier, rc, sigs) in sorted(rows.items()):
+        rows.setdefault((patch, check), []).append((tier, int(rc), sigs))
+out = ["| change | check | runs (exit codes in order; 1 = detected, 0 = missed, 2 = inconclusive) | violation signatures of the last run |", "|---|---|---|---|"]
+for (patch, check), hist in sorted(rows.items()):
     name = patch.replace('/verif/seeded/', '').replace('/verif/', '').replace('/patch.diff', '')
-    out.append(f"| {name} | {check} | {tier} | {rc} | {', '.join(sigs)[:200]} |")
+    codes = " → ".join(str(h[1]) for h in hist)
+    out.append(f"| {name} | {check} | {codes} | {', '.join(hist[-1][2])[:200]} |")
 open('/verif/seeded/RESULTS.md', 'w').write("\n".join(out) + "\n")
 print("\n".join(out))
